@@ -298,17 +298,24 @@ def check_property(prop, tier, seed):
     bounded = []
     checker_cmds = []
     thorough_extra = {}
+    # all Verus units of the property (and their canary runs) are started at once; results are consumed in unit order
+    from concurrent.futures import ThreadPoolExecutor
+    _vunits = [u for u in pcfg["units"] if CONF["units"][u]["kind"] == "verus"]
+    _pool = ThreadPoolExecutor(max_workers=max(2, 2 * len(_vunits)))
+    def _guard(fn, *a):
+        try:
+            return fn(*a)
+        except Undecided as e:
+            return e
+    _fut_main = {u: _pool.submit(_guard, run_verus_unit, u, tier, seed, prop) for u in _vunits}
+    _fut_can = {u: _pool.submit(_guard, run_canaries, u, prop) for u in _vunits}
     for unit in pcfg["units"]:
         ucfg = CONF["units"][unit]
         if ucfg["kind"] == "verus":
-            from concurrent.futures import ThreadPoolExecutor
-            with ThreadPoolExecutor(max_workers=2) as ex:
-                fut_c = ex.submit(run_canaries, unit, prop)
-                ur = run_verus_unit(unit, tier, seed, prop)
-                try:
-                    cr_pre = fut_c.result()
-                except Undecided as e:
-                    cr_pre = e
+            ur = _fut_main[unit].result()
+            if isinstance(ur, Undecided):
+                raise ur
+            cr_pre = _fut_can[unit].result()
             checker_cmds.append(ur["res"]["cmd"])
             ptags = {prop} | set(pcfg.get("extra_tags", []))
             relevant_fail = [f for f in ur["fails"] if ptags & set(f["tags"])]
